@@ -6,7 +6,15 @@ package main
 //   maprange  `for … := range m` with m of map type (iteration order is random)
 //   go        goroutine start          select   select statement
 //   import    of time, math/rand, math/rand/v2, crypto/rand, runtime, sync, unsafe, os/user
-//   env       os.Getenv / os.LookupEnv / os.Environ / os.Hostname / os.Getpid / os.Getwd / time.Now …
+//   env       os.Getenv / os.LookupEnv / os.Environ / os.Hostname / os.Getpid / os.Getwd / time.Now …,
+//             any use of os.Args[0], any call of a method named ModTime
+//   readdir   call of a METHOD named Readdir / Readdirnames / ReadDir (the *os.File ones return the
+//             entries in directory order; the package-level os.ReadDir, fs.ReadDir, ioutil.ReadDir sort)
+//   fmtp      string literal holding the verb %p (prints an address)
+//   fnbody    the functions the Lean model mirrors (modelledFuncs): hash of the whole normalised body
+// A maprange/readdir site's hash covers the statement AND the two statements that follow it
+// in the same block (where the collected data is sorted or consumed), so that deleting the
+// `sort.Strings(keys)` after a collecting loop changes the key as well.
 // Each site is keyed by (file, enclosing function, kind, ordinal within the
 // function, hash of the normalised source of the statement).  Line numbers are
 // informational only, so unrelated edits do not disturb the expectation table.
@@ -51,9 +59,20 @@ var watchedImports = map[string]bool{"time": true, "math/rand": true, "math/rand
 	"runtime": true, "sync": true, "sync/atomic": true, "unsafe": true, "os/user": true, "os/signal": true, "net": true, "reflect": true,
 	"maps": true, "iter": true, "hash/maphash": true, "os/exec": false}
 
+// modelledFuncs: file -> functions whose body Model/Det.lean mirrors statement by statement.
+var modelledFuncs = map[string]map[string]bool{
+	"cmd/wuffs/main.go":      {"listDir": true, "appendDir": true, "findFiles": true, "findFiles1": true},
+	"lang/ast/sort.go":       {"TopologicalSortStructs": true, "tssVisit": true},
+	"cmd/wuffs-c/release.go": {"(genReleaseHelper).gen": true, "parseIncludes": true, "(genReleaseHelper).parse": true},
+	"cmd/wuffs/gen.go":       {"(genHelper).gen": true, "(genHelper).genDirDependencies": true},
+	"cmd/wuffs/release.go":   {"genreleaseLang": true},
+	"internal/cgen/cgen.go":  {"(gen).genIncludes": true},
+}
+
 var envFuncs = map[string]bool{"os.Getenv": true, "os.LookupEnv": true, "os.Environ": true, "os.Hostname": true,
 	"os.Getpid": true, "os.Getppid": true, "os.Getuid": true, "os.Getwd": true, "os.UserHomeDir": true, "os.TempDir": true,
-	"os.Executable": true, "time.Now": true, "time.Since": true, "os.ExpandEnv": true, "os.UserCacheDir": true, "os.UserConfigDir": true}
+	"os.Executable": true, "time.Now": true, "time.Since": true, "os.ExpandEnv": true, "os.UserCacheDir": true, "os.UserConfigDir": true,
+	"path/filepath.Abs": true, "os.Readlink": true, "path/filepath.EvalSymlinks": true, "time.Until": true}
 
 func normText(fset *token.FileSet, n ast.Node) string {
 	var b bytes.Buffer
@@ -217,15 +236,57 @@ func fileSites(fset *token.FileSet, f *ast.File, rel string, info *types.Info) (
 		}
 		imported[n] = p
 	}
+	// follow[s] = normalised text of the (up to) two statements after s in its block
+	follow := map[ast.Node]string{}
+	// stmtOf[call] = innermost statement holding a call expression
+	noteList := func(list []ast.Stmt) {
+		for i, st := range list {
+			f := ""
+			for j := i + 1; j < len(list) && j <= i+2; j++ {
+				f += " ;; " + normText(fset, list[j])
+			}
+			follow[st] = f
+		}
+	}
+	ast.Inspect(f, func(n ast.Node) bool {
+		switch n := n.(type) {
+		case *ast.BlockStmt:
+			noteList(n.List)
+		case *ast.CaseClause:
+			noteList(n.Body)
+		case *ast.CommClause:
+			noteList(n.Body)
+		}
+		return true
+	})
 	visit := func(fn string, body ast.Node) {
 		ord := map[string]int{}
 		add := func(kind, what string, n ast.Node, typed bool) {
-			sites = append(sites, Site{Kind: kind, File: rel, Func: fn, Ord: ord[kind], Hash: hash12(normText(fset, n)), What: what,
+			sites = append(sites, Site{Kind: kind, File: rel, Func: fn, Ord: ord[kind], Hash: hash12(normText(fset, n) + follow[n]), What: what,
 				Line: fset.Position(n.Pos()).Line, Typed: typed})
 			ord[kind]++
 		}
+		if modelledFuncs[rel][fn] {
+			add("fnbody", "-", body, true)
+		}
 		ast.Inspect(body, func(n ast.Node) bool {
+			if n == nil {
+				return true
+			}
 			switch n := n.(type) {
+			case *ast.BasicLit:
+				if n.Kind == token.STRING && strings.Contains(strings.ReplaceAll(n.Value, "%%", ""), "%p") {
+					add("fmtp", "-", n, true)
+				}
+			case *ast.IndexExpr:
+				// os.Args[0]: how the program was invoked (the other elements are its input)
+				if se, ok := n.X.(*ast.SelectorExpr); ok {
+					if id, ok := se.X.(*ast.Ident); ok && id.Name == "os" && se.Sel.Name == "Args" && imported["os"] == "os" {
+						if lit, ok := n.Index.(*ast.BasicLit); ok && lit.Value == "0" {
+							add("env", "os.Args[0]", n, true)
+						}
+					}
+				}
 			case *ast.RangeStmt:
 				what := normText(fset, n.X)
 				if tv, ok := info.Types[n.X]; ok && tv.Type != nil {
@@ -242,6 +303,25 @@ func fileSites(fset *token.FileSet, f *ast.File, rel string, info *types.Info) (
 				add("select", "-", n, true)
 			case *ast.CallExpr:
 				if se, ok := n.Fun.(*ast.SelectorExpr); ok {
+					isPkgCall := false
+					if id, ok := se.X.(*ast.Ident); ok {
+						if _, imp := imported[id.Name]; imp {
+							isPkgCall = true
+							if obj, known := info.Uses[id]; known {
+								if _, isPkg := obj.(*types.PkgName); !isPkg {
+									isPkgCall = false
+								}
+							}
+						}
+					}
+					if !isPkgCall {
+						switch se.Sel.Name {
+						case "Readdir", "Readdirnames", "ReadDir":
+							add("readdir", normText(fset, n.Fun), n, true)
+						case "ModTime":
+							add("env", "ModTime", n, true)
+						}
+					}
 					if id, ok := se.X.(*ast.Ident); ok {
 						if p, ok := imported[id.Name]; ok {
 							if obj, known := info.Uses[id]; known {
